@@ -6,7 +6,6 @@ import (
 	"slices"
 
 	"github.com/go-faster/errors"
-	"golang.org/x/exp/maps"
 
 	"github.com/tdakkota/docker-logql/internal/iterators"
 	"github.com/tdakkota/docker-logql/internal/logql"
@@ -128,6 +127,8 @@ func groupEntries(iter *entryIterator) (s lokiapi.Streams, _ error) {
 	var (
 		e       entry
 		streams = map[string]lokiapi.Stream{}
+		// order keeps stream keys in order of first appearance.
+		order []string
 	)
 	for iter.Next(&e) {
 		// FIXME(tdakkota): allocates a string for every record.
@@ -137,6 +138,7 @@ func groupEntries(iter *entryIterator) (s lokiapi.Streams, _ error) {
 			stream = lokiapi.Stream{
 				Stream: lokiapi.NewOptLabelSet(e.set.AsLokiAPI()),
 			}
+			order = append(order, key)
 		}
 		stream.Values = append(stream.Values, lokiapi.LogEntry{T: uint64(e.ts), V: e.line})
 		streams[key] = stream
@@ -145,11 +147,13 @@ func groupEntries(iter *entryIterator) (s lokiapi.Streams, _ error) {
 		return s, err
 	}
 
-	result := maps.Values(streams)
-	for _, stream := range result {
-		slices.SortFunc(stream.Values, func(a, b lokiapi.LogEntry) int {
+	result := make(lokiapi.Streams, 0, len(order))
+	for _, key := range order {
+		stream := streams[key]
+		slices.SortStableFunc(stream.Values, func(a, b lokiapi.LogEntry) int {
 			return cmp.Compare(a.T, b.T)
 		})
+		result = append(result, stream)
 	}
 	return result, nil
 }
